@@ -14,6 +14,7 @@ func ReachingStores(a *ssa.Alloc, at ssa.Instruction) []ssa.Value {
 	seenVal := map[ssa.Value]bool{}
 	zero := false
 	seen := map[*ssa.BasicBlock]bool{}
+	dead := InfeasibleEdges(at.Block())
 	var scan func(b *ssa.BasicBlock, from int)
 	scan = func(b *ssa.BasicBlock, from int) {
 		for i := from; i >= 0; i-- {
@@ -30,7 +31,7 @@ func ReachingStores(a *ssa.Alloc, at ssa.Instruction) []ssa.Value {
 			return
 		}
 		for _, p := range b.Preds {
-			if seen[p] {
+			if seen[p] || dead[[2]*ssa.BasicBlock{p, b}] {
 				continue
 			}
 			seen[p] = true
@@ -59,6 +60,7 @@ func ReachingFieldStores(a *ssa.Alloc, field int, at ssa.Instruction) []ssa.Valu
 	seenVal := map[ssa.Value]bool{}
 	unknown := false
 	seen := map[*ssa.BasicBlock]bool{}
+	dead := InfeasibleEdges(at.Block())
 	var scan func(b *ssa.BasicBlock, from int)
 	scan = func(b *ssa.BasicBlock, from int) {
 		for i := from; i >= 0; i-- {
@@ -83,7 +85,7 @@ func ReachingFieldStores(a *ssa.Alloc, field int, at ssa.Instruction) []ssa.Valu
 			return
 		}
 		for _, p := range b.Preds {
-			if seen[p] {
+			if seen[p] || dead[[2]*ssa.BasicBlock{p, b}] {
 				continue
 			}
 			seen[p] = true
@@ -134,11 +136,112 @@ func Resolve(v ssa.Value) ssa.Value {
 			v = rs[0]
 		case *ssa.ChangeType:
 			v = x.X
+		case *ssa.Phi:
+			// a merge whose other ways in are dead (behind `if false`, as left by the normaliser when a
+			// function-typed parameter was nil / non-nil at the call) is the one live operand
+			var live ssa.Value
+			n := 0
+			for i, e := range x.Edges {
+				if i < len(x.Block().Preds) && deadEdge(x.Block().Preds[i], x.Block()) {
+					continue
+				}
+				if e == ssa.Value(x) {
+					continue
+				}
+				if live == nil || live != e {
+					n++
+					live = e
+				}
+			}
+			if n != 1 {
+				return v
+			}
+			v = live
 		default:
 			return v
 		}
 	}
 	return v
+}
+
+// ResolveAt is Resolve for a use in block at: ways into a merge that contradict a flag (or error) tested on
+// the way to at do not count.
+func ResolveAt(v ssa.Value, at *ssa.BasicBlock) ssa.Value {
+	v = Resolve(v)
+	for depth := 0; depth < 8; depth++ {
+		phi, ok := v.(*ssa.Phi)
+		if !ok {
+			return v
+		}
+		dead := InfeasibleEdges(at)
+		var live ssa.Value
+		n := 0
+		for i, e := range phi.Edges {
+			if i < len(phi.Block().Preds) {
+				p := phi.Block().Preds[i]
+				if dead[[2]*ssa.BasicBlock{p, phi.Block()}] || deadEdge(p, phi.Block()) {
+					continue
+				}
+			}
+			if e == ssa.Value(phi) {
+				continue
+			}
+			if live == nil || live != e {
+				n++
+				live = e
+			}
+		}
+		if n != 1 {
+			return v
+		}
+		v = Resolve(live)
+	}
+	return v
+}
+
+// deadEdge reports whether the edge from -> to can never be taken because a constant condition decides
+// otherwise, at the end of from or on every way into from.
+func deadEdge(from, to *ssa.BasicBlock) bool {
+	constSide := func(b *ssa.BasicBlock) (taken *ssa.BasicBlock, ok bool) {
+		if len(b.Instrs) == 0 || len(b.Succs) != 2 {
+			return nil, false
+		}
+		br, isIf := b.Instrs[len(b.Instrs)-1].(*ssa.If)
+		if !isIf {
+			return nil, false
+		}
+		c, isC := br.Cond.(*ssa.Const)
+		if !isC || c.Value == nil {
+			return nil, false
+		}
+		if c.Value.String() == "true" {
+			return b.Succs[0], true
+		}
+		return b.Succs[1], true
+	}
+	if taken, ok := constSide(from); ok && taken != to && from.Succs[0] != from.Succs[1] {
+		return true
+	}
+	// from itself is only reachable over dead edges
+	seen := map[*ssa.BasicBlock]bool{}
+	var unreachable func(b *ssa.BasicBlock, depth int) bool
+	unreachable = func(b *ssa.BasicBlock, depth int) bool {
+		if depth > 4 || seen[b] || len(b.Preds) == 0 {
+			return false
+		}
+		seen[b] = true
+		for _, p := range b.Preds {
+			if taken, ok := constSide(p); ok && taken != b && p.Succs[0] != p.Succs[1] {
+				continue
+			}
+			if unreachable(p, depth+1) {
+				continue
+			}
+			return false
+		}
+		return true
+	}
+	return unreachable(from, 0)
 }
 
 // allocEscapes reports whether the address of a is used other than by
